@@ -103,9 +103,14 @@ def role_table_of(f: FuncInfo, dsnames):
             key = norm(t.slice)
         nodes, _ = defs.closure(st.value)
         srcs = set()
+        opaque = False
         for e in nodes:
             srcs |= _component_refs(e, dsnames)
-        out.setdefault(key, []).append((srcs, st))
+            # the dataset itself handed to a function: which of its variables end up in this value is not visible here
+            for c_ in ast.walk(e):
+                if isinstance(c_, ast.Call) and any(isinstance(a, ast.Name) and a.id in dsnames for a in list(c_.args) + [k.value for k in c_.keywords]):
+                    opaque = True
+        out.setdefault(key, []).append((srcs, st, opaque))
     return out
 
 
@@ -444,7 +449,7 @@ def _roles(run, P):
                 run.incomplete("F-TABLE/reader-roles", c, where(f), f"no store of {target} found")
                 continue
             n += 1
-            for srcs, st in got[target]:
+            for srcs, st, opaque in got[target]:
                 vocab = set().union(*table.values())
                 base = lambda s: s.split("#")[0]
                 rel = {s for s in srcs if s in vocab or base(s) in {base(v) for v in vocab}}
@@ -455,6 +460,8 @@ def _roles(run, P):
                     ok = rel == want
                 if ok:
                     run.holds("F-TABLE/reader-roles", c, where(f, st), f"{target} <- {sorted(rel)}")
+                elif opaque:
+                    run.incomplete("F-TABLE/reader-roles", c, where(f, st), f"{target} is built from {sorted(rel)} plus whatever a helper that receives the whole dataset reads; the format assigns {sorted(want)}")
                 else:
                     run.violation("F-TABLE/reader-roles", c, where(f, st), f"{target} is built from {sorted(rel)}; the format assigns {sorted(want)}")
     run.floor("F-TABLE/reader-roles", n, 25)
@@ -469,7 +476,10 @@ def _roles(run, P):
         if not ent:
             run.incomplete("F-TABLE/reader-roles", c, where(f), f"no store of {target}")
             continue
-        srcs, st = ent[0]
+        srcs, st, opaque = ent[0]
+        if opaque:
+            run.incomplete("F-TABLE/reader-roles", c, where(f, st), f"{target} comes out of a helper that receives the whole dataset: which corner column it carries is not followed")
+            continue
         # column taken from the stacked (lon, lat) table
         val = st.value
         nodes, _ = defs.closure(val)
